@@ -54,13 +54,16 @@ def run(ctx, rep, tier):
             ch = parse_chain(st.value)
             if ch is not None and ch.root == tr_name and ch.to is not None:
                 retarget = (i, ch)
-    rep.check(retarget is not None and retarget[0] == 0 and retarget[1].to == f"{sm}.starting_state", "C16.a", FN, "retarget is the loop's first, unconditional statement",
+    # the only statement allowed before it: skipping states that are not part of the pattern's own machine (C16.h)
+    scope_guard = [st for st in loop.body if isinstance(st, ast.If) and ast.unparse(st.test) == f"{st_name} not in {sm}.states" and len(st.body) == 1 and isinstance(st.body[0], ast.Continue) and not st.orelse]
+    lead = 1 if (scope_guard and loop.body[0] is scope_guard[0]) else 0
+    rep.check(retarget is not None and retarget[0] == lead and retarget[1].to == f"{sm}.starting_state", "C16.a", FN, "retarget is the loop's first statement for every state of the pattern, unconditionally",
               "the retargeting to the pattern start is conditional or goes elsewhere: some byte (or end-of-input) inside the wait still reaches the enclosing handler")
     if retarget:
         rep.check(retarget[1].truthy("handles_else"), "C16.a", FN, "retargeted transitions stay marked as no-match paths", "retargeted transitions lose the error-handling mark")
         rep.check(retarget[1].fallthrough is None, "C16.b", FN, "retarget keeps the transition a fallthrough", "the retarget statement itself changes the fallthrough flag")
     # no return / continue / break inside the loop
-    esc = [n for n in ast.walk(loop) if isinstance(n, (ast.Continue, ast.Break, ast.Return))]
+    esc = [n for n in ast.walk(loop) if isinstance(n, (ast.Continue, ast.Break, ast.Return)) and not (scope_guard and n is scope_guard[0].body[0])]
     rep.check(not esc, "C16.a", FN, "loop visits every element", "the loop skips elements (continue/break/return)")
     rets = [st for st in body if isinstance(st, ast.Return)]
     rep.check(len(rets) == 1 and ast.unparse(rets[0].value) == sm and body.index(rets[0]) > body.index(loop), "C16.a", FN, "returns the retargeted machine", "return value changed")
@@ -149,3 +152,25 @@ def run(ctx, rep, tier):
     delegate(ctx, rep, tier, "C01", ("C01.d",), "C16.g", "no-match transitions of every match kind are built fall-through: the restart edges of a wait are these transitions retargeted, and rely on it")
     structs.check_copy_complete(ctx, rep, "C16.e")
     structs.check_cull_policy(ctx, rep, "C16.f")
+
+
+def _wait_scope_and_optional_entry(ctx, rep, tier):
+    model = ctx.model
+    rep.rule("C16.h", "a wait retargets only mismatches of its own pattern: transitions reached through an action that leaves the pattern (a break) are skipped")
+    ok = model.has(FN, "for state, trans in sm.transitions_pointing_to(current_error_handlers[ErrorReasons.NO_MATCH], True):\n    if state not in sm.states:\n        continue\n    ...")
+    rep.check(ok, "C16.h", FN, "retargeting is restricted to states of the pattern's own machine", "the restart edges of a wait leak into whatever a break attached to its last transition leads to: "
+              "`loop { wait \"ab\"; break; } \"cd\";` can never fail after the wait has completed")
+    rep.rule("C16.i", "a construct that merges foreign transitions into a body's start state (optional) does so on a copy when the body can return to that state (a wait's restart target)")
+    q = "OptionalNode.convert"
+    ok = model.has(q, "if sub_dfa.transitions_pointing_to(sub_dfa.starting_state):\n    entry_state = DFState()\n    sub_dfa.add(entry_state)\n    for trans in sub_dfa.starting_state.transitions:\n"
+                      "        entry_state.transition(trans.copy(), collapse_else=False)\n    sub_dfa.starting_state = entry_state\nsub_dfa.mark_accepting(sub_dfa.starting_state)")
+    rep.check(ok, "C16.i", q, "re-entrant start state: the optional is entered (and skipped) through a copy", "`optional { wait \"ab\"; } \"c\";`: what follows the optional is merged into the wait's restart state - "
+              "the wait fails on \"axabc\" and is abandoned on \"ac\"")
+
+
+_run_hi16 = run
+
+
+def run(ctx, rep, tier):
+    _run_hi16(ctx, rep, tier)
+    _wait_scope_and_optional_entry(ctx, rep, tier)
